@@ -87,3 +87,10 @@ Example C16_example :
   snd (run (conn_window 160) [100; 0; 0; 36; 37; 37; 200; 137; 136]) =
   [true; false; false; false; true; false; true; true; false].
 Proof. vm_compute. reflexivity. Qed.
+
+(* the numbers and tables this property's model uses are the ones the sources declare: Model/GenConsts.v is
+   regenerated from the repository under test (tools/consts) before every build *)
+From V Require Import Model.GenConsts Proofs.TieC16.
+Theorem C16_constants_are_the_sources : TieC16.tie.
+Proof. exact TieC16.tie_holds. Qed.
+Print Assumptions C16_constants_are_the_sources.
